@@ -327,3 +327,111 @@ func (d dyn) String() string {
 	}
 	return fmt.Sprintf("T%d", d.Idx)
 }
+
+// dfsDiffers reports whether a depth-first search in field order (first
+// declaration found wins, whatever its depth) finds another method than the
+// Go rule (shallowest depth). Used to steer around the known finding
+// "promotion-depth-first".
+func (m *model) dfsDiffers(ti int, name string) bool {
+	r := m.resolve(ti, name)
+	if !r.OK {
+		return false
+	}
+	seen := map[int]bool{}
+	var dfs func(ti int, path []embed) (int, []embed, bool)
+	dfs = func(ti int, path []embed) (int, []embed, bool) {
+		if seen[ti] {
+			return 0, nil, false
+		}
+		seen[ti] = true
+		s := m.Structs[ti]
+		if s.decl(name) != nil {
+			return ti, path, true
+		}
+		for _, e := range s.Embeds {
+			if e.Kind == embIface {
+				continue
+			}
+			p := append(append([]embed{}, path...), e)
+			if o, pp, ok := dfs(e.Idx, p); ok {
+				return o, pp, true
+			}
+		}
+		return 0, nil, false
+	}
+	o, p, ok := dfs(ti, nil)
+	if !ok {
+		return false // only reachable through an embedded interface
+	}
+	if r.Owner != o || len(p) != len(r.Path) {
+		return true
+	}
+	for i := range p {
+		if p[i] != r.Path[i] {
+			return true
+		}
+	}
+	return false
+}
+
+// ambiguous: the name is declared somewhere below T<ti> but the selector is
+// not legal (several declarations at the shallowest depth).
+func (m *model) ambiguous(ti int, name string) bool {
+	if m.resolve(ti, name).OK {
+		return false
+	}
+	seen := map[int]bool{}
+	var any func(int) bool
+	any = func(i int) bool {
+		if seen[i] {
+			return false
+		}
+		seen[i] = true
+		s := m.Structs[i]
+		if s.decl(name) != nil {
+			return true
+		}
+		for _, e := range s.Embeds {
+			if e.Kind == embIface {
+				if contains(m.allNames(m.Ifaces[e.Idx]), name) {
+					return true
+				}
+				continue
+			}
+			if any(e.Idx) {
+				return true
+			}
+		}
+		return false
+	}
+	return any(ti)
+}
+
+// mixedAlt: both signatures of Mb are declared somewhere in the embedding
+// tree of T<ti>.
+func (m *model) mixedAlt(ti int) bool {
+	seen := map[int]bool{}
+	alt, prim := false, false
+	var walk func(int)
+	walk = func(i int) {
+		if seen[i] {
+			return
+		}
+		seen[i] = true
+		s := m.Structs[i]
+		if d := s.decl("Mb"); d != nil {
+			if d.Alt {
+				alt = true
+			} else {
+				prim = true
+			}
+		}
+		for _, e := range s.Embeds {
+			if e.Kind != embIface {
+				walk(e.Idx)
+			}
+		}
+	}
+	walk(ti)
+	return alt && prim
+}
